@@ -74,7 +74,8 @@ def run(prop, tier, seed=0, extra=None):
     checks_build = None
     if prop == 'C08' and tier == 'thorough':
         # the same histories on the MIR dumped with --features checks (the crate's internal assertions compiled in)
-        base = [t for t in templates if not any(op[0] in ('ematch', 'mmatch', 'rewrite', 'extract') for op in t.ops)]
+        qn = {t.name for t in catalog.QUICK}
+        base = [t for t in templates if t.name in qn and not any(op[0] in ('ematch', 'mmatch', 'rewrite', 'extract') for op in t.ops)]      # the quick catalogue (the large thorough shapes exceed the budget under the checks build)
         r2 = runner.explore_all(base, features=('checks',), hash_orders=('ins',), budget_paths=5000, budget_s=1500)
         for (tn, ho), r in sorted(r2.items()):
             if r.get('status') != 'ok': inconclusive.append('checks build, template %s: %s' % (tn, r.get('reason', '?')[:300]))
